@@ -6,7 +6,6 @@ from tools.vlib import *
 PID = "C39"
 READY = False
 MANIFEST = {
-    "category": "known-finding",
     "level_text": "KNOWN FINDING C39-1: the property does not hold for the code as it is; the check confirms it on every run and exits 0 "
                   "while reporting any other way the property could be broken. Proved in Lean 4 about a model of KeyManager "
                   "(register_session_with_material, rotate_if_needed, derive_key) and of Node's use of it (perform_handshake, tick -> "
